@@ -33,6 +33,7 @@ type Case struct {
 	R        int64  `json:"recovery_ns"`
 	D        int64  `json:"switching_delay_ns"`
 	Init     []int  `json:"init"`
+	NameSet  int    `json:"nameSet,omitempty"` // 0: a..e; 1: names with separators; 2: 300 endpoints
 	Ops      []Op   `json:"ops"`
 	Failure  *Fail  `json:"failure,omitempty"`
 }
@@ -218,10 +219,28 @@ type Result struct {
 	NontrivC14 bool
 }
 
+// universeFor returns the endpoint names of a case; the last one is never put into a list.
+func universeFor(set int) []string {
+	switch set {
+	case 1: // names containing the characters people join lists with
+		return []string{"a,b", "c", "a", "b,c", ",", " ", "a b", "zz"}
+	case 2: // many endpoints
+		u := make([]string, 0, 301)
+		for i := 0; i < 300; i++ {
+			u = append(u, fmt.Sprintf("n%03d", i))
+		}
+		return append(u, "zz")
+	}
+	return Universe
+}
+
+var curUniverse = Universe
+
 func names(ix []int) []string {
+	n := len(curUniverse) - 1
 	out := make([]string, 0, len(ix))
 	for _, i := range ix {
-		out = append(out, Universe[((i%5)+5)%5])
+		out = append(out, curUniverse[((i%n)+n)%n])
 	}
 	return out
 }
@@ -279,6 +298,10 @@ func Run(c *Case, props map[string]bool) (res Result) {
 		}
 	}()
 
+	curUniverse = universeFor(c.NameSet)
+	if c.NameSet != 0 {
+		lab[fmt.Sprintf("name-set-%d", c.NameSet)]++
+	}
 	R, D := time.Duration(c.R), time.Duration(c.D)
 	init := names(c.Init)
 	if len(init) == 0 || hasDup(init) {
@@ -420,7 +443,7 @@ func Run(c *Case, props map[string]bool) (res Result) {
 		pendingSwitch := D > 0 && D != R && clk.pending(D) > 0
 		switch op.K {
 		case "avail":
-			e := Universe[((op.E%len(Universe))+len(Universe))%len(Universe)]
+			e := curUniverse[((op.E%len(curUniverse))+len(curUniverse))%len(curUniverse)]
 			before := snapshot()
 			if pendingSwitch || len(clk.inflight()) > 0 {
 				opWhilePending = true
@@ -550,7 +573,7 @@ func Run(c *Case, props map[string]bool) (res Result) {
 			endIfOtherFailed()
 		}
 	}
-	res.NontrivC13 = curRemovedOrReordered && lab["timer-fired"] > 0 && len(m.ep) >= 1 && len(c.Init) >= 3
+	res.NontrivC13 = curRemovedOrReordered && (lab["timer-fired"] > 0 || c.NameSet != 0) && len(m.ep) >= 1 && len(c.Init) >= 2
 	res.NontrivC14 = D > 0 && opWhilePending && lab["timer-fired"] > 0
 	return
 }
